@@ -7,7 +7,7 @@ import impl
 
 PID = "C13"
 LEAN_MODULES = ["BtcHd.Props.C13"]
-LEAN_MODULES_THOROUGH = ['BtcHd.Props.TrBip32', 'BtcHd.Props.TrWallet', 'BtcHd.Props.TrPaper']
+LEAN_MODULES_THOROUGH = ['BtcHd.Props.TrBip32', 'BtcHd.Props.TrWallet', 'BtcHd.Props.TrPaper', 'BtcHd.Props.TrText']
 TRUSTED_BASE = common.CORE_TRUSTED + [
     "thread schedules below the granularity of one API call are not modelled: CPython's atomic list.append and "
     "re-entrant hashlib/ecdsa are trusted; the multi-threaded run only samples schedules"]
